@@ -1,7 +1,7 @@
 (* C15 correspondence: one case constructor per driven entry point; every constructor carries the
    inputs and the result observed on the real QMI code (harness/c15.py). *)
 Require Export QV.Lib.Corr QV.C15.ModelBase QV.C15.ModelIB QV.C15.ModelUsbtmc QV.C15.ModelT2
-               QV.C15.ModelScpi QV.C15.ModelApt.
+               QV.C15.ModelScpi QV.C15.ModelApt QV.C15.ModelAptFields.
 
 Definition bl_eqb := list_eqb bytes_eqb.
 Definition ev_eqb (a b : N * N) : bool := (fst a =? fst b) && (snd a =? snd b).
@@ -24,7 +24,16 @@ Inductive case :=
 (* APT *)
 | CAptParam (dev host id p1 p2 : N) (obs : list N)
 | CAptData (dev host id : N) (payload : list N) (obs : list N)
-| CAptAsk (header_only : bool) (id sizeof : N) (stream : list N) (obs : res (list N)) (obs_rest : list N).
+| CAptAsk (header_only : bool) (id sizeof : N) (stream : list N) (obs : res (list N)) (obs_rest : list N)
+(* second round *)
+| CUsbQuirkW (vendor product : N) (data : list N) (tag : N) (obs_mts : N) (obs_adv obs_rigol obs_ieee : bool)
+             (obs_transfers : list (list N)) (obs_tag : N)
+| CScpiBlockCh (flag : bool) (term : list N) (transfers : list (list N)) (obs : res (list N)) (obs_rest : list N)
+| CScpiWrite (cmd cterm : list N) (obs : res (list (list N)))
+| CAptFields (L : layout) (bytes : list N) (obs : list (list Z))      (* from_buffer_copy, field by field *)
+| CAptPack (L : layout) (vss : list (list Z)) (obs : list N).          (* bytes(structure) *)
+
+Definition zl_eqb := list_eqb (list_eqb Z.eqb).
 
 Definition check_case (c : case) : bool :=
   match c with
@@ -51,13 +60,27 @@ Definition check_case (c : case) : bool :=
   | CAptData dev host id payload obs => bytes_eqb (write_data_command dev host id payload) obs
   | CAptAsk ho id sz s obs orest =>
       let '(r, rest) := apt_ask ho id sz s in res_eqb bytes_eqb r obs && bytes_eqb rest orest
+  | CUsbQuirkW v p data tag omts oadv orig oieee otr otag =>
+      let '(mts, adv, rig, ieee) := vendor_quirks v p in
+      (mts =? omts) && Bool.eqb adv oadv && Bool.eqb rig orig && Bool.eqb ieee oieee &&
+      match write_raw_quirk v p data tag with
+      | Some (tr, t) => bl_eqb tr otr && (t =? otag)
+      | None => false
+      end
+  | CScpiBlockCh flag term trs obs orest =>
+      let '(r, st) := read_block_chunked flag term trs in res_eqb bytes_eqb r obs && bytes_eqb (cflat st) orest
+  | CScpiWrite cmd ct obs => res_eqb bl_eqb (scpi_write cmd ct) obs
+  | CAptFields L bytes obs => zl_eqb (view L (unpack L bytes)) obs
+  | CAptPack L vss obs => bytes_eqb (pack L vss) obs
   end.
 
 (* the model's side of a case, for replay printing *)
 Inductive mout :=
 | MBytes (r : res (list N)) | MMsg (r : res msg) | MRR (t : N) (w : list (list N)) (r : res msg)
 | MUsbW (o : option (list (list N) * N)) | MUsbR (o : rd_out) | MT2 (o : N * list (list (N * N)))
-| MBlock (o : res (list N) * list N) | MAsk (o : list (list N) * res (list N)) | MRaw (b : list N).
+| MBlock (o : res (list N) * list N) | MAsk (o : list (list N) * res (list N)) | MRaw (b : list N)
+| MQuirk (q : N * bool * bool * bool) (o : option (list (list N) * N)) | MWrite (o : res (list (list N)))
+| MFields (o : list (list Z)).
 
 Definition model_out (c : case) : mout :=
   match c with
@@ -73,4 +96,10 @@ Definition model_out (c : case) : mout :=
   | CAptParam dev host id p1 p2 _ => MRaw (write_param_command dev host id p1 p2)
   | CAptData dev host id payload _ => MRaw (write_data_command dev host id payload)
   | CAptAsk ho id sz s _ _ => MBlock (apt_ask ho id sz s)
+  | CUsbQuirkW v p data tag _ _ _ _ _ _ => MQuirk (vendor_quirks v p) (write_raw_quirk v p data tag)
+  | CScpiBlockCh flag term trs _ _ =>
+      let '(r, st) := read_block_chunked flag term trs in MBlock (r, cflat st)
+  | CScpiWrite cmd ct _ => MWrite (scpi_write cmd ct)
+  | CAptFields L bytes _ => MFields (view L (unpack L bytes))
+  | CAptPack L vss _ => MRaw (pack L vss)
   end.
